@@ -1,0 +1,15 @@
+//go:build verif
+// +build verif
+
+package electreIII
+
+import "github.com/Azbesciak/RealDecisionMaker/lib/model"
+
+// VerifCredibilityMatrix exposes the credibility matrix (stage 1 of ELECTRE III) to verification harnesses.
+func VerifCredibilityMatrix(
+	alternatives *[]model.AlternativeWithCriteria,
+	criteria *model.Criteria,
+	electreCriteria *ElectreCriteria,
+) *AlternativesMatrix {
+	return evaluateCredibilityMatrix(alternatives, criteria, electreCriteria)
+}
